@@ -118,7 +118,7 @@ macro_rules | `(tactic| wf_close) => `(tactic|
 
 /-- Extensible leaf rule set for `post_auto` (later rules are tried first). -/
 syntax "post_leaf" : tactic
-macro_rules | `(tactic| post_leaf) => `(tactic| (apply_assumption <;> assumption))
+macro_rules | `(tactic| post_leaf) => `(tactic| (apply_assumption <;> first | assumption | (simp; done)))
 macro_rules | `(tactic| post_leaf) => `(tactic| exact post_throw _)
 macro_rules | `(tactic| post_leaf) => `(tactic| exact post_failHere)
 macro_rules | `(tactic| post_leaf) => `(tactic| exact post_throw_bind)
